@@ -19,6 +19,7 @@ import (
 	"github.com/go-task/task/v3/internal/summary"
 	"github.com/go-task/task/v3/internal/templater"
 	"github.com/go-task/task/v3/taskfile/ast"
+	"github.com/go-task/task/v3/verifhook"
 
 	"golang.org/x/sync/errgroup"
 	"mvdan.cc/sh/v3/interp"
@@ -78,6 +79,9 @@ func (e *Executor) Run(ctx context.Context, calls ...*Call) error {
 		return err
 	}
 
+	for vk, vc := range regularCalls {
+		verifhook.RegisterTop(vc, vk)
+	}
 	g, ctx := errgroup.WithContext(ctx)
 	for _, c := range regularCalls {
 		c := c
@@ -118,6 +122,8 @@ func (e *Executor) splitRegularAndWatchCalls(calls ...*Call) (regularCalls []*Ca
 
 // RunTask runs a task by its name
 func (e *Executor) RunTask(ctx context.Context, call *Call) error {
+	ctx = verifhook.Enter(ctx, call, call.Task)
+	defer verifhook.Ev(ctx, "exit")
 	t, err := e.FastCompiledTask(call)
 	if err != nil {
 		return err
@@ -148,23 +154,29 @@ func (e *Executor) RunTask(ctx context.Context, call *Call) error {
 	}
 
 	release := e.acquireConcurrencyLimit()
+	verifhook.Ev(ctx, "acquire")
 	defer release()
+	defer verifhook.Ev(ctx, "release")
 
 	return e.startExecution(ctx, t, func(ctx context.Context) error {
 		e.Logger.VerboseErrf(logger.Magenta, "task: %q started\n", call.Task)
 		if err := e.runDeps(ctx, t); err != nil {
+			verifhook.Ev(ctx, "depsDone")
 			if _, isExitError := interp.IsExitStatus(err); isExitError && !call.Indirect {
 				return &errors.TaskRunError{TaskName: t.Task, Err: err}
 			}
 			return err
 		}
 
+		verifhook.Ev(ctx, "depsDone")
 		if err := ctx.Err(); err != nil {
+			verifhook.Ev(ctx, "ctxErr")
 			return err
 		}
 
 		preCondMet, err := e.areTaskPreconditionsMet(ctx, t)
 		if err != nil {
+			verifhook.Ev(ctx, "precondFail")
 			return err
 		}
 
@@ -187,6 +199,7 @@ func (e *Executor) RunTask(ctx context.Context, call *Call) error {
 			}
 
 			if upToDate && preCondMet {
+				verifhook.Ev(ctx, "upToDate")
 				if e.Verbose || (!call.Silent && !t.Silent && !e.Taskfile.Silent && !e.Silent) {
 					e.Logger.Errf(logger.Magenta, "task: Task %q is up to date\n", t.Name())
 				}
@@ -197,8 +210,10 @@ func (e *Executor) RunTask(ctx context.Context, call *Call) error {
 		for _, p := range t.Prompt {
 			if p != "" && !e.Dry {
 				if err := e.Logger.Prompt(logger.Yellow, p, "n", "y", "yes"); errors.Is(err, logger.ErrNoTerminal) {
+					verifhook.Ev(ctx, "promptFail")
 					return &errors.TaskCancelledNoTerminalError{TaskName: call.Task}
 				} else if errors.Is(err, logger.ErrPromptCancelled) {
+					verifhook.Ev(ctx, "promptFail")
 					return &errors.TaskCancelledByUserError{TaskName: call.Task}
 				} else if err != nil {
 					return err
@@ -210,6 +225,7 @@ func (e *Executor) RunTask(ctx context.Context, call *Call) error {
 			e.Logger.Errf(logger.Red, "task: cannot make directory %q: %v\n", t.Dir, err)
 		}
 
+		verifhook.Ev(ctx, "guardsPassed")
 		var deferredExitCode uint8
 
 		for i := range t.Cmds {
@@ -264,11 +280,15 @@ func (e *Executor) mkdir(t *ast.Task) error {
 func (e *Executor) runDeps(ctx context.Context, t *ast.Task) error {
 	g, ctx := errgroup.WithContext(ctx)
 
+	verifhook.Ev(ctx, "depsRelease")
+	defer verifhook.Ev(ctx, "depsReacq")
 	reacquire := e.releaseConcurrencyLimit()
 	defer reacquire()
 
+	vdep := &verifhook.Counter{}
 	for _, d := range t.Deps {
 		d := d
+		ctx := verifhook.Child(ctx, "dep", vdep.Next())
 		g.Go(func() error {
 			err := e.RunTask(ctx, &Call{Task: d.Task, Vars: d.Vars, Silent: d.Silent, Indirect: true})
 			if err != nil {
@@ -284,6 +304,7 @@ func (e *Executor) runDeps(ctx context.Context, t *ast.Task) error {
 func (e *Executor) runDeferred(t *ast.Task, call *Call, i int, deferredExitCode *uint8) {
 	ctx, cancel := context.WithCancel(context.Background())
 	defer cancel()
+	ctx = verifhook.Adopt(ctx, call)
 
 	origTask, err := e.GetTask(call)
 	if err != nil {
@@ -311,10 +332,15 @@ func (e *Executor) runCommand(ctx context.Context, t *ast.Task, call *Call, i in
 
 	switch {
 	case cmd.Task != "":
+		verifhook.Ev(ctx, "callRelease", i)
+		defer verifhook.Ev(ctx, "callReacq", i)
 		reacquire := e.releaseConcurrencyLimit()
 		defer reacquire()
 
+		vctx := ctx
+		ctx := verifhook.Child(ctx, "call", i)
 		err := e.RunTask(ctx, &Call{Task: cmd.Task, Vars: cmd.Vars, Silent: cmd.Silent, Indirect: true})
+		verifhook.Ev(vctx, "callRet", i)
 		if err != nil {
 			return err
 		}
@@ -344,6 +370,7 @@ func (e *Executor) runCommand(ctx context.Context, t *ast.Task, call *Call, i in
 		}
 		stdOut, stdErr, closer := outputWrapper.WrapWriter(e.Stdout, e.Stderr, t.Prefix, outputTemplater)
 
+		verifhook.Ev(ctx, "cmdStart", i, cmd.Cmd)
 		err = execext.RunCommand(ctx, &execext.RunCommandOptions{
 			Command:   cmd.Cmd,
 			Dir:       t.Dir,
@@ -354,6 +381,7 @@ func (e *Executor) runCommand(ctx context.Context, t *ast.Task, call *Call, i in
 			Stdout:    stdOut,
 			Stderr:    stdErr,
 		})
+		verifhook.Ev(ctx, "cmdEnd", i, verifhook.ErrClass(err))
 		if closeErr := closer(err); closeErr != nil {
 			e.Logger.Errf(logger.Red, "task: unable to close writer: %v\n", closeErr)
 		}
@@ -380,23 +408,29 @@ func (e *Executor) startExecution(ctx context.Context, t *ast.Task, execute func
 	e.executionHashesMutex.Lock()
 
 	if other, ok := e.executionHashes[h]; ok {
+		verifhook.Ev(ctx, "waiter", h)
 		e.executionHashesMutex.Unlock()
 		e.Logger.VerboseErrf(logger.Magenta, "task: skipping execution of task: %s\n", h)
 
 		// Release our execution slot to avoid blocking other tasks while we wait
+		verifhook.Ev(ctx, "wRelease")
+		defer verifhook.Ev(ctx, "wReacq")
 		reacquire := e.releaseConcurrencyLimit()
 		defer reacquire()
 
 		// Wait until the other execution has really finished and report its outcome
 		<-other.done
+		verifhook.Ev(ctx, "wWake")
 		return other.err
 	}
 
 	this := &execution{done: make(chan struct{})}
 	e.executionHashes[h] = this
+	verifhook.Ev(ctx, "register", h)
 	e.executionHashesMutex.Unlock()
 
 	defer close(this.done)
+	defer verifhook.Ev(ctx, "execDone")
 	this.err = execute(ctx)
 	return this.err
 }
